@@ -432,6 +432,205 @@ fn cfg_case(rng: &mut Rng, net: &Net) {
 }
 
 // ---------------------------------------------------------------------------------------------
+// node: a sentinel Config's `node_connection_info` must reach the connections to the monitored
+// server on every route of `builder()` (a fake sentinel and a fake master record what they get)
+// ---------------------------------------------------------------------------------------------
+
+pub mod fake_sentinel {
+    use std::{
+        io::{Read, Write},
+        net::{TcpListener, TcpStream},
+        sync::{Arc, Mutex, OnceLock},
+        thread,
+    };
+
+    pub type Log = Arc<Mutex<Vec<Vec<String>>>>;
+
+    fn parse_command(buf: &[u8]) -> Option<(Vec<String>, usize)> {
+        fn line(buf: &[u8], pos: usize) -> Option<(&[u8], usize)> {
+            let rest = &buf[pos..];
+            let end = rest.windows(2).position(|w| w == b"\r\n")?;
+            Some((&rest[..end], pos + end + 2))
+        }
+        let (head, mut pos) = line(buf, 0)?;
+        if head.first() != Some(&b'*') {
+            return None;
+        }
+        let n: usize = std::str::from_utf8(&head[1..]).ok()?.parse().ok()?;
+        let mut args = Vec::with_capacity(n);
+        for _ in 0..n {
+            let (len_line, p) = line(buf, pos)?;
+            let len: usize = std::str::from_utf8(len_line.get(1..)?).ok()?.parse().ok()?;
+            if buf.len() < p + len + 2 {
+                return None;
+            }
+            args.push(String::from_utf8_lossy(&buf[p..p + len]).into_owned());
+            pos = p + len + 2;
+        }
+        Some((args, pos))
+    }
+
+    fn bulk(s: &str) -> String {
+        format!("${}\r\n{}\r\n", s.len(), s)
+    }
+
+    fn reply(cmd: &[String], master_port: u16) -> String {
+        let upper: Vec<String> = cmd.iter().map(|s| s.to_ascii_uppercase()).collect();
+        match upper.iter().map(String::as_str).collect::<Vec<_>>().as_slice() {
+            ["SENTINEL", "MASTERS"] => {
+                let port = master_port.to_string();
+                let fields = ["name", "mymaster", "ip", "127.0.0.1", "port", &port, "flags", "master"];
+                let mut out = format!("*1\r\n*{}\r\n", fields.len());
+                for f in fields {
+                    out.push_str(&bulk(f));
+                }
+                out
+            }
+            ["ROLE"] => format!("*3\r\n{}:0\r\n*0\r\n", bulk("master")),
+            ["PING", _] => bulk(&cmd[1]),
+            ["PING"] => "+PONG\r\n".to_string(),
+            _ => "+OK\r\n".to_string(),
+        }
+    }
+
+    fn serve(mut stream: TcpStream, log: Log, master_port: u16) {
+        let mut buf = Vec::new();
+        let mut chunk = [0u8; 4096];
+        loop {
+            while let Some((cmd, used)) = parse_command(&buf) {
+                buf.drain(..used);
+                let out = reply(&cmd, master_port);
+                log.lock().unwrap().push(cmd);
+                if stream.write_all(out.as_bytes()).is_err() {
+                    return;
+                }
+            }
+            match stream.read(&mut chunk) {
+                Ok(0) | Err(_) => return,
+                Ok(n) => buf.extend_from_slice(&chunk[..n]),
+            }
+        }
+    }
+
+    fn fake_server(master_port: Option<u16>) -> (u16, Log) {
+        let listener = TcpListener::bind("127.0.0.1:0").unwrap();
+        let port = listener.local_addr().unwrap().port();
+        let log: Log = Arc::default();
+        let log2 = log.clone();
+        thread::spawn(move || {
+            for stream in listener.incoming().flatten() {
+                let log = log2.clone();
+                thread::spawn(move || serve(stream, log, master_port.unwrap_or(port)));
+            }
+        });
+        (port, log)
+    }
+
+    pub struct Pair {
+        pub sentinel_port: u16,
+        pub sentinel_log: Log,
+        pub master_log: Log,
+    }
+
+    /// one fake sentinel and one fake master per process
+    pub fn pair() -> &'static Pair {
+        static P: OnceLock<Pair> = OnceLock::new();
+        P.get_or_init(|| {
+            let (master_port, master_log) = fake_server(None);
+            let (sentinel_port, sentinel_log) = fake_server(Some(master_port));
+            Pair { sentinel_port, sentinel_log, master_log }
+        })
+    }
+}
+
+fn node_case(rng: &mut Rng, net: &Net) {
+    let pair = fake_sentinel::pair();
+    // u: `from_urls(..).with_node_connection_info(..)`, s: struct literal naming urls,
+    // c: struct literal naming connection structures
+    let arm = *rng.pick(&["u", "s", "c"]);
+    let present = rng.chance(85);
+    let db = if rng.chance(30) { 0 } else { 1 + rng.below(9) as i64 };
+    let pass = rng.chance(70).then(|| (*rng.pick(&["p1", "s3cret", "x"])).to_string());
+    let user = (pass.is_some() && rng.chance(60)).then(|| (*rng.pick(&["u1", "node-user"])).to_string());
+    let with_info = rng.chance(90);
+    let node = present.then(|| sentinel::SentinelNodeConnectionInfo {
+        tls_mode: None,
+        redis_connection_info: with_info.then(|| RedisConnectionInfo {
+            db,
+            username: user.clone(),
+            password: pass.clone(),
+            protocol: ProtocolVersion::RESP2,
+        }),
+    });
+    let eff = present && with_info;
+    println!(
+        "rdin node {arm} {} {} {} {}",
+        eff as u8,
+        if eff { db } else { 0 },
+        if eff { user.clone().unwrap_or("-".into()) } else { "-".into() },
+        if eff { pass.clone().unwrap_or("-".into()) } else { "-".into() },
+    );
+    let url = format!("redis://127.0.0.1:{}", pair.sentinel_port);
+    let cfg = match arm {
+        "u" => sentinel::Config::from_urls(vec![url], "mymaster".to_string(), sentinel::SentinelServerType::Master)
+            .with_node_connection_info(node),
+        "s" => sentinel::Config {
+            urls: Some(vec![url]),
+            connections: None,
+            server_type: sentinel::SentinelServerType::Master,
+            master_name: "mymaster".into(),
+            pool: None,
+            node_connection_info: node,
+        },
+        _ => sentinel::Config {
+            urls: None,
+            connections: Some(vec![ConnectionInfo {
+                addr: ConnectionAddr::Tcp("127.0.0.1".into(), pair.sentinel_port),
+                redis: RedisConnectionInfo::default(),
+            }]),
+            server_type: sentinel::SentinelServerType::Master,
+            master_name: "mymaster".into(),
+            pool: None,
+            node_connection_info: node,
+        },
+    };
+    pair.sentinel_log.lock().unwrap().clear();
+    pair.master_log.lock().unwrap().clear();
+    let got = catch_unwind(AssertUnwindSafe(|| match cfg.create_pool(Some(Runtime::Tokio1)) {
+        Err(_) => "create-error",
+        Ok(pool) => net.rt.block_on(async {
+            match tokio::time::timeout(Duration::from_secs(10), pool.get()).await {
+                Ok(Ok(_)) => "ok",
+                Ok(Err(_)) => "get-error",
+                Err(_) => "get-hang",
+            }
+        }),
+    }));
+    let master = pair.master_log.lock().unwrap().clone();
+    let sentinel_seen = pair.sentinel_log.lock().unwrap().clone();
+    let auth = master
+        .iter()
+        .find(|c| c[0].eq_ignore_ascii_case("AUTH"))
+        .map(|c| match c.len() {
+            2 => format!("-:{}", c[1]),
+            3 => format!("{}:{}", c[1], c[2]),
+            _ => "?".into(),
+        })
+        .unwrap_or("-".into());
+    let sel = master.iter().find(|c| c[0].eq_ignore_ascii_case("SELECT")).and_then(|c| c.get(1).cloned()).unwrap_or("0".into());
+    let dirty = sentinel_seen.iter().any(|c| c[0].eq_ignore_ascii_case("AUTH") || c[0].eq_ignore_ascii_case("SELECT"));
+    let asked = sentinel_seen.iter().any(|c| c[0].eq_ignore_ascii_case("SENTINEL"));
+    match got {
+        Err(_) => println!("rdout panic"),
+        Ok("ok") => println!(
+            "rdout node auth={auth} db={sel} sentinel={}",
+            if dirty { "got-node-credentials" } else if asked { "asked" } else { "not-asked" }
+        ),
+        Ok(e) => println!("rdout node {e}"),
+    }
+}
+
+// ---------------------------------------------------------------------------------------------
 // conv
 // ---------------------------------------------------------------------------------------------
 
@@ -1044,7 +1243,22 @@ async fn recycle_history(rng: &mut Rng, srv: &resp::Server) -> usize {
             };
             let _ = pings_before;
             let t0 = std::time::Instant::now();
-            let r = pool.timeout_get(&tmo).await;
+            // watchdog: every wait in this get() is bounded (wait 0, the recycle timeout of the
+            // call, the connection's response timeout); a get() that is still not back long
+            // after all of them could have fired has lost its timeout. Reported as the answer
+            // `hang` (the model never gives it) and the process stops: the pool is wedged
+            let r = match tokio::time::timeout(Duration::from_secs(40), pool.timeout_get(&tmo)).await {
+                Ok(r) => r,
+                Err(_) => {
+                    hist.push(format!("get=hang[{}]", toks.join(",")));
+                    show("res=hang pings=[] watched=-".into());
+                    println!("rpx get() did not return within 40 s although wait = 0 and a recycle timeout of {:?} was given with the call", tmo.recycle);
+                    println!("rpx history {}", hist.join("; "));
+                    use std::io::Write;
+                    let _ = std::io::stdout().flush();
+                    std::process::exit(0);
+                }
+            };
             // (generous: 5 s on top of what the silent replies may legitimately cost; without the
             // response timeout each of them costs the pool's 8 s)
             let n_silent = toks.iter().filter(|t| **t == "silent").count() as u64;
@@ -1158,6 +1372,7 @@ fn main() {
             for i in 0..cases {
                 match i % 10 {
                     // connection attempts cost milliseconds: one case in ten
+                    0 if i % 30 == 20 => node_case(&mut rng, &net),
                     0 => cfg_case(&mut rng, &net),
                     1..=4 => conv_case(&mut rng),
                     _ => serde_case(&mut rng),
@@ -1166,8 +1381,12 @@ fn main() {
         }
         "cfg" => {
             let net = Net::new(4);
-            for _ in 0..cases {
-                cfg_case(&mut rng, &net);
+            for i in 0..cases {
+                if i % 4 == 3 {
+                    node_case(&mut rng, &net);
+                } else {
+                    cfg_case(&mut rng, &net);
+                }
             }
         }
         "recycle" => {
